@@ -178,6 +178,9 @@ pub fn update_config(
 }
 
 const MINIMUM_AGGREGABLE_BALANCE: Uint128 = Uint128::new(1_000u128);
+/// Verification hook (compiled only with `--cfg wwcore_verif`): the aggregation threshold.
+#[cfg(wwcore_verif)]
+pub const VERIF_MINIMUM_AGGREGABLE_BALANCE: Uint128 = MINIMUM_AGGREGABLE_BALANCE;
 
 /// Aggregates the fees collected into the given asset_info.
 pub fn aggregate_fees(
